@@ -43,6 +43,7 @@ type TxInfo struct {
 	Idx      int
 	Tx       *pb.Transaction
 	Coinbase bool
+	Autogen  bool
 	From     string
 	Ins      []InRef
 	Outs     []OutInfo
